@@ -150,7 +150,7 @@ Definition is_ref_field (u : ufield) : bool :=
 Lemma resolves_ufield_scalar : forall D u, is_ref_field u = false -> resolves D (of_ufield u) = true.
 Proof. intros D [n [pt k|nm|nm|nm|p f t] r o] H; try reflexivity; discriminate. Qed.
 
-(* what the user's own object references must name for the file to compile *)
+(* what the user's own object references must name for the file to convert *)
 Definition user_refs_ok (e : entity) (D : list (bool * bytes)) : bool :=
   forallb (fun u => resolves D (of_ufield u)) (all_ufields e).
 
@@ -442,25 +442,25 @@ Qed.
 (* the compiler accepts what entityNode.run accepts as soon as the user's fields are fine *)
 Theorem compile_expand : forall e,
   (forall fl, user_refs_ok e (defined (expand_with e fl)) = true) ->
-  fields_ok e = true -> query_params_ok e = true -> command_params_ok e = true -> compile e = expand e.
+  fields_ok e = true -> query_params_ok e = true -> command_params_ok e = true -> convert e = expand e.
 Proof.
-  intros e HU Hok Hq Hc. unfold compile, expand.
+  intros e HU Hok Hq Hc. unfold convert, expand.
   destruct (default_filters e _) as [fl|]; [|reflexivity].
   destruct (nodup_bytes _); [|reflexivity]. now rewrite (expand_closed e fl (HU fl)), Hok, Hq, Hc.
 Qed.
 
-(* the only compile errors the expansion itself can cause are in the user's own fields: an
+(* the only convert errors the expansion itself can cause are in the user's own fields: an
    object reference that names nothing, an optional/required clash, a path parameter that is
    not a request field; a reference made by entity.go is never the cause *)
 Theorem compile_errors : forall e cs, expand e = Ok cs ->
-  compile e = if user_refs_ok e (defined cs) then
+  convert e = if user_refs_ok e (defined cs) then
                 if fields_ok e then
                   if query_params_ok e && command_params_ok e then Ok cs
                   else Err "missing field in request"
                 else Err "cannot be both required and optional"
               else Err "type not found".
 Proof.
-  intros e cs H. unfold compile. rewrite H.
+  intros e cs H. unfold convert. rewrite H.
   unfold expand in H. destruct (default_filters e _) as [fl|]; [|discriminate].
   destruct (nodup_bytes _); [|discriminate]. inversion H; subst.
   destruct (user_refs_ok e (defined (expand_with e fl))) eqn:EU.
@@ -1104,31 +1104,31 @@ Proof.
     eapply ref_resolves_mono; [|exact Hb]. apply incl_appr, incl_refl.
 Qed.
 
-Lemma compile_ok_inv : forall e cs, compile e = Ok cs -> expand e = Ok cs /\ closed cs = true.
+Lemma compile_ok_inv : forall e cs, convert e = Ok cs -> expand e = Ok cs /\ closed cs = true.
 Proof.
-  intros e cs H. unfold compile in H. destruct (expand e) as [c| | |] eqn:E; try discriminate.
+  intros e cs H. unfold convert in H. destruct (expand e) as [c| | |] eqn:E; try discriminate.
   destruct (closed c) eqn:Ec; [|discriminate]. destruct (fields_ok e); [|discriminate].
   destruct (query_params_ok e && command_params_ok e); [|discriminate]. inversion H; subst. auto.
 Qed.
 
 (* a file of entities compiles to the concatenation of the entities' own expansions ... *)
-Theorem compile_all_inv : forall es cs, compile_all es = Ok cs ->
-  exists l, Forall2 (fun e c => compile e = Ok c) es l /\ cs = concat l.
+Theorem compile_all_inv : forall es cs, convert_all es = Ok cs ->
+  exists l, Forall2 (fun e c => convert e = Ok c) es l /\ cs = concat l.
 Proof.
-  induction es as [|e r IH]; intros cs H; cbn [compile_all] in H.
+  induction es as [|e r IH]; intros cs H; cbn [convert_all] in H.
   - inversion H. exists []. split; [constructor|reflexivity].
-  - destruct (compile e) as [a| | |] eqn:Ea; try discriminate.
-    destruct (compile_all r) as [b| | |] eqn:Eb; try discriminate. inversion H; subst.
+  - destruct (convert e) as [a| | |] eqn:Ea; try discriminate.
+    destruct (convert_all r) as [b| | |] eqn:Eb; try discriminate. inversion H; subst.
     destruct (IH b eq_refl) as [l [HF ->]]. exists (a :: l). split; [constructor; assumption|reflexivity].
 Qed.
 
 (* ... which is closed as a whole: an entity's references never depend on its neighbours *)
-Theorem compile_all_closed : forall es cs, compile_all es = Ok cs -> closed cs = true.
+Theorem compile_all_closed : forall es cs, convert_all es = Ok cs -> closed cs = true.
 Proof.
-  induction es as [|e r IH]; intros cs H; cbn [compile_all] in H.
+  induction es as [|e r IH]; intros cs H; cbn [convert_all] in H.
   - inversion H. reflexivity.
-  - destruct (compile e) as [a| | |] eqn:Ea; try discriminate.
-    destruct (compile_all r) as [b| | |] eqn:Eb; try discriminate. inversion H; subst.
+  - destruct (convert e) as [a| | |] eqn:Ea; try discriminate.
+    destruct (convert_all r) as [b| | |] eqn:Eb; try discriminate. inversion H; subst.
     apply closed_app; [exact (proj2 (compile_ok_inv e a Ea))|now apply IH].
 Qed.
 
